@@ -4,7 +4,7 @@ import Monorail.Model.Path
 
 `Config` is the list of targets in declaration order. `deps cfg i` mirrors the second pass of
 `Index::new`: the trie hits of the target's own path (minus itself), then for each `uses` entry the
-trie hits of that entry (minus itself), mapped to node numbers through `label2node`, sorted and
+trie hits of that entry written with one trailing separator (minus itself), mapped to node numbers through `label2node`, sorted and
 de-duplicated (`nodes.sort(); nodes.dedup()`).
 -/
 namespace Monorail
@@ -48,7 +48,7 @@ def sortDedup (l : List Nat) : List Nat := l.foldr insertUniq []
 def deps (cfg : Config) (i : Nat) : List Nat :=
   match cfg[i]? with
   | none => []
-  | some t => sortDedup (hitNodes cfg t.path t.path ++ t.uses.flatMap (fun u => hitNodes cfg u t.path))
+  | some t => sortDedup (hitNodes cfg t.path t.path ++ t.uses.flatMap (fun u => hitNodes cfg (slashQ u) t.path))
 
 /-- the adjacency list of the whole graph -/
 def adjacency (cfg : Config) : List (List Nat) := (List.range cfg.length).map (deps cfg)
